@@ -11,6 +11,7 @@
 package fakereg13
 
 import (
+	"crypto/sha256"
 	"encoding/json"
 	"fmt"
 	"io"
@@ -43,6 +44,7 @@ func (e Endpoint) String() string {
 }
 
 type Request struct {
+	URL     string // the raw URL the request was sent to (url.go)
 	M, Repo string
 	EP      Endpoint
 	Digest  *string
@@ -417,7 +419,7 @@ var (
 )
 
 func (g *Registry) abstract(req *http.Request, body []byte) (Request, bool) {
-	q := Request{M: req.Method, Body: body}
+	q := Request{M: req.Method, Body: body, URL: req.URL.String()}
 	p := req.URL.Path
 	if m := reSess.FindStringSubmatch(p); m != nil {
 		id, _ := strconv.ParseInt(m[2], 10, 64)
@@ -665,7 +667,8 @@ func ShowReq(q Request) string {
 	if q.Range != nil {
 		rg = fmt.Sprintf("%d-%d", q.Range[0], q.Range[1])
 	}
-	return fmt.Sprintf("%s,%s,%s,dg=%s,mt=%s,ac=%s,ct=%s,cl=%s,rg=%s,b=%s", q.M, hx(q.Repo), q.EP, ostr(q.Digest),
+	us := sha256.Sum256([]byte(q.URL))
+	return fmt.Sprintf("%s,%s,%s,u=%x,dg=%s,mt=%s,ac=%s,ct=%s,cl=%s,rg=%s,b=%s", q.M, hx(q.Repo), q.EP, us[:6], ostr(q.Digest),
 		mt, ostr(q.Accept), ostr(q.CType), oint(q.CLen), rg, hx(string(q.Body)))
 }
 
